@@ -20,7 +20,7 @@ var checkC02 = register("C02/decode", func(c scoreCase3) string {
 	if !ok {
 		return ""
 	}
-	o, err := decode3(level, c.Input, c.NilRecv)
+	o, err := decodeCase3(level, c)
 	if err != nil || o.isNil() {
 		return fmt.Sprintf("well-formed vector rejected by the %v decoder: %v", level, err)
 	}
@@ -93,7 +93,7 @@ func TestC02(t *testing.T) {
 							if v >= 0 {
 								vec = gen.DecorateV3(canon, lv, spec.Temporal, mix(uint64(seed), uint64(((i*100+e*20+rl*4+rc)*4+int(lv))*4+v)))
 							}
-							cs := scoreCase3{Level: int(lv), NilRecv: v == 0, Input: vec.String()}
+							cs := scoreCase3{Level: int(lv), NilRecv: v == 0, PreQuery: (i+e+rl+rc+v)%4 == 1, Input: vec.String()}
 							evals++
 							if isNT {
 								nt++
@@ -121,7 +121,7 @@ func TestC02(t *testing.T) {
 	c.rapidStage("rapid", pick(64000, 1000000), func(rt *rapid.T) {
 		lv := rapid.SampledFrom([]spec.Level{spec.Temporal, spec.Environmental}).Draw(rt, "decoder")
 		vec := gen.ValidV3(lv).Draw(rt, "vector")
-		cs := scoreCase3{Level: int(lv), NilRecv: rapid.Bool().Draw(rt, "nilrecv"), Input: vec.String()}
+		cs := scoreCase3{Level: int(lv), NilRecv: rapid.Bool().Draw(rt, "nilrecv"), PreQuery: rapid.IntRange(0, 3).Draw(rt, "prequery") == 0, Input: vec.String()}
 		isNT, _ := c02Labels(spec.IdxV3(vec))
 		cl := []string{"rapid:decoder=" + lv.String()}
 		if cs.Input != spec.CanonV3(vec, lv) {
